@@ -18,7 +18,8 @@ LEAN_TARGETS = ["Props.C09"]
 SPEC_FILES = ["Spec/Core.lean"]
 ASSUMPTIONS = ["that a signature made under scheme A does not verify under scheme B is cryptography (oracle)",
                "the dispatch matrix is regenerated from /repo with spy keys for every COSE algorithm identifier the library knows"]
-KEYS = [("p256", 0), ("p384", 0), ("p521", 0), ("ed25519", 0), ("rsa", 0), ("p256lz", 0), ("p521lz", 0)]
+KEYS = [("p256", 0), ("p384", 0), ("p521", 0), ("ed25519", 0), ("rsa", 0), ("p256lz", 0), ("p521lz", 0),
+        ("p521", 1), ("p521", 2), ("rsa2047", 0), ("rsa1024", 0), ("rsa3072", 0)]
 DECLARED = core.ALL_ALGS + [0, -1, -6, -9, -35, -40, -256, -260, 7, 257]
 
 
@@ -27,7 +28,10 @@ def sign_as(priv, alg, data):
     k = core.key_kind(priv)
     if (k == "ec" and alg in (core.ES256, core.ES512)) or (k == "okp" and alg == core.EDDSA) or \
             (k == "rsa" and alg in (core.RS1, core.RS256, core.RS384, core.RS512, core.PS256, core.PS384, core.PS512)):
-        return core.sign(priv, alg, data)
+        try:
+            return core.sign(priv, alg, data)
+        except ValueError:          # e.g. PS512 with a 1024-bit modulus: the key cannot produce such a signature
+            return None
     return None
 
 
@@ -125,7 +129,7 @@ def run(ctx, res):
     work.driver_ok = ctx.driver_ok
     corr.merge(res, corr.parallel(work, tasks))
     res.exhaustive = True
-    res.rule = ("complete matrix key type/curve {P-256, P-384, P-521, Ed25519, RSA, keys with leading-zero coordinates} x declared "
+    res.rule = ("complete matrix key type/curve {P-256, P-384, P-521 (several, with and without leading-zero coordinates), Ed25519, RSA with 1024/2047/2048/3072-bit moduli} x declared "
                 "algorithm (all 10 registered identifiers + 10 non-members) x algorithm actually used to sign (every one the key can "
                 "produce), through verify_authentication_response and packed self-attestation; accepted iff declared = used and the "
                 "identifier is in the spec table; plus COSE decoding of every key incl. the raw 65-byte form; distinct = matrix cell")
